@@ -83,6 +83,19 @@ def work(tier, seed):
         for first in ms:
             units.append({"cfg": cfg, "depth": depth, "first": first})
         units.append({"cfg": cfg, "mustraise": True})
+    # DDP (DTensor) state layout on simulated ranks: every stop point of every history
+    ms3 = [[1, 1, 1], [0, 0, 0], [1, 0, 1], [0, 1, 0]]
+    hs = [[["step", list(a)], ["step", list(b)], ["step", list(c)]] for a, b, c in itertools.product(ms3, repeat=3)]
+    ddp_cfgs = [
+        seq.cfg_with(seed=seed, precond=["shampoo", {}], graft=["adam", 0.5, 1e-1], betas=[0.5, 0.5], momentum=0.5, wd=0.5, lr=0.25, freq=2, start=2),
+        seq.cfg_with(seed=seed, precond=["soap", {"method": "qr"}], graft=None, betas=[0.5, 0.5], lr=0.25, freq=1, start=2),
+    ]
+    for ci, c in enumerate(ddp_cfgs):
+        for (W, g, comm, cp) in [(2, 2, "FP32", False), (2, 2, "BF16", True), (4, 2, "FP32", False), (2, 1, "FP32", True)]:
+            if tier == "quick" and (W, g, comm, cp) not in [(2, 2, "FP32", False), (2, 2, "BF16", True)]:
+                continue
+            for ch in common.chunks(hs if tier == "thorough" else hs[ci::4], 8):
+                units.append({"cfg": c, "ddp": True, "W": W, "g": g, "comm": comm, "cp": cp, "hists": ch})
     return units
 
 
@@ -304,11 +317,83 @@ def must_raise(cfg):
     return msgs, ncases, obs
 
 
+def ddp_program(cfg, hist, g, comm, cp):
+    """per rank: uninterrupted run with a snapshot (deepcopy of the DTensor state dict) at every stop point, then for every
+    stop point a fresh optimizer (fresh process groups, created in the same order on all ranks) that loads the snapshot
+    and continues; returns the list of mismatch messages."""
+
+    def fn(rank, W):
+        import copy
+
+        import torch
+        from distributed_shampoo.shampoo_types import DDPShampooConfig
+        from .. import distrun
+
+        def mk(params=None):
+            dc = DDPShampooConfig(communication_dtype=distrun.comm_enum(comm), num_trainers_per_group=g, communicate_params=cp)
+            return seq.build(cfg, distributed_config=dc, params=params)
+
+        params, opt = mk()
+        snaps, digs, t, msgs = [], [], 0, []
+        for k in range(len(hist) + 1):
+            sd = copy.deepcopy(opt.distributed_state_dict(key_to_param=iter(names(params))))
+            snaps.append((sd, [p.detach().clone() for p in params], t))
+            digs.append(full_digest(opt, params))
+            if k < len(hist):
+                t = apply_event(opt, params, cfg, hist[k], t)
+        for k in range(len(hist) + 1):
+            sd, pv, tk = snaps[k]
+            p2 = [torch.nn.Parameter(v.clone()) for v in pv]
+            _, o2 = mk(p2)
+            o2.load_distributed_state_dict(sd, key_to_param=iter(names(p2)))
+            d = diff_digest(digs[k], full_digest(o2, p2))
+            if d:
+                msgs.append(f"rank {rank} stop {k}: right after load: {d}")
+            t2 = tk
+            for j in range(k, len(hist)):
+                t2 = apply_event(o2, p2, cfg, hist[j], t2)
+                d = diff_digest(digs[j + 1], full_digest(o2, p2))
+                if d and not msgs:
+                    msgs.append(f"rank {rank} stop {k}, after event {j} {hist[j]}: {d} (resumed DDP run vs uninterrupted run)")
+        return {"msgs": msgs, "digs": [common.h64(json.dumps(x, sort_keys=True)) for x in digs]}
+
+    return fn
+
+
+def check_ddp(cfg, hist, W, g, comm, cp):
+    from .. import sim
+
+    s = sim.Sched(W).run(ddp_program(cfg, hist, g, comm, cp))
+    what = f"DDP W={W} group={g} comm={comm} communicate_params={cp} hist={hist}"
+    msgs = []
+    if s.deadlock is not None:
+        msgs.append(f"{what}: DEADLOCK {s.deadlock}")
+    for r, e in enumerate(s.errors):
+        if e:
+            msgs.append(f"{what}: rank {r} raised {e.splitlines()[0][:200]}")
+    if not msgs:
+        for r in range(W):
+            msgs += [f"{what}: {m}" for m in s.results[r]["msgs"][:1]]
+    digs = [d for r in range(W) if s.results[r] for d in s.results[r]["digs"]]
+    return msgs[:3], digs, len(s.points)
+
+
 def run_unit(unit):
     cfg = unit["cfg"]
     res = {"evals": 0, "transitions": 0, "states": set(), "outcomes": set(), "nontrivial_count": 0, "violations": [], "samples": [],
            "stats": {"restore_runs": 0, "mustraise_cases": 0, "inner_deletions_raise": 0, "inner_deletions_silent": 0, "double_restores": 0}}
-    if unit.get("mustraise"):
+    if unit.get("ddp"):
+        for hist in unit["hists"]:
+            msgs, digs, npts = check_ddp(cfg, hist, unit["W"], unit["g"], unit["comm"], unit["cp"])
+            res["evals"] += (len(hist) + 1) * unit["W"]
+            res["transitions"] += npts
+            res["states"].update(digs)
+            res["stats"]["ddp_restore_runs"] = res["stats"].get("ddp_restore_runs", 0) + (len(hist) + 1) * unit["W"]
+            res["nontrivial_count"] += len(hist)
+            if msgs:
+                res["violations"].append({"case": {"cfg": cfg, "hist": hist, "ddp": [unit["W"], unit["g"], unit["comm"], unit["cp"]]}, "msg": f"{msgs[0]} [cfg {brief(cfg)}]", "kind": "ddp"})
+        res["samples"].append({"ddp": [unit["W"], unit["g"]], "cfg": brief(cfg), "history": unit["hists"][0]})
+    elif unit.get("mustraise"):
         msgs, n, obs = must_raise(cfg)
         res["evals"] += n
         res["transitions"] += n
@@ -352,6 +437,9 @@ def brief(cfg):
 
 
 def replay(case):
+    if case.get("ddp"):
+        W, g, comm, cp = case["ddp"]
+        return check_ddp(case["cfg"], case["hist"], W, g, comm, cp)[0]
     if case.get("mustraise"):
         return must_raise(case["cfg"])[0]
     return check_history(case["cfg"], case["hist"], double=True)[0]
